@@ -197,11 +197,14 @@ func (g *lockGen) plan() *BlockPlan {
 	lk := &goattypes.LockingRequests{}
 	abs := EmptyLockAbs()
 	gas := int64(r.Intn(10))
+	if r.Intn(3) == 0 {
+		gas = 0 // blocks without gas revenue are common (and a boundary of the reward-pool update)
+	}
 	lk.Gas = []*goattypes.GasRequest{goattypes.NewGasRequest(uint64(h), big.NewInt(gas))}
 	abs["gas"] = []int64{gas}
 	rare := func(k int) bool { return r.Intn(k) == 0 }
 	dirty := func(k int) bool { return !g.clean && r.Intn(k) == 0 }
-	if rare(6) {
+	if rare(6) || (h >= 20 && rare(3)) { // late grants too: after the halving schedule has decayed to nothing
 		amt := int64(r.Intn(25))
 		lk.Grants = append(lk.Grants, &goattypes.GrantRequest{Amount: big.NewInt(amt)})
 		abs["grants"] = []int64{amt}
